@@ -15,8 +15,13 @@ Invariants of the property itself (tied names read equal, one trainable name per
 values untouched by bulk/random operations, get_all_dic -> set_all identity, polar/Cartesian/standard
 form keeps the complex value) are evaluated directly on the implementation after every operation of
 every history.  Streams: "clean" (config order, then arbitrary interleavings; the model's own
-[clean_hist] must classify every history of this stream as safe) and one stream per known finding
-(F7 component-name ties, F11 merged/overlapping groups, F12 overlapping complex groups)."""
+[clean_hist] must classify every history of this stream as safe), "SC" (component-name ties with a
+negative shared radius followed by standard_complex, which must leave such parameters alone) and one
+stream per known finding (F7 component-name ties, F11 merged/overlapping groups, F12 overlapping
+complex groups, F14 coordinate operations on a complex parameter with exactly one fixed component).
+Masks (vm.mask_params) are exercised inside the histories as self-contained probes (enter, read /
+write back / nest, leave): they must not change the stored state, tied names must read the same value
+under a mask, nested masks add up."""
 import json
 import math
 import random
@@ -37,7 +42,10 @@ RHEADER = ("From Coq Require Import Reals List ZArith.\nFrom Interval Require Im
 SITE_F7 = "VarsManager.xy2rp_all with set_same on component names"
 SITE_F11 = "VarsManager.set_same merging or overlapping tie groups"
 SITE_F12 = "VarsManager.rp2xy/xy2rp with overlapping complex tie groups"
-KNOWN_STREAM = {"F7": (SITE_F7, "F7", ("polar",)), "F11": (SITE_F11, "F11", ("tied",)), "F12": (SITE_F12, "F12", ("polar",))}
+SITE_F14 = "VarsManager.rp2xy/xy2rp/std_polar on a complex parameter with one fixed component"
+KNOWN_STREAM = {"F7": (SITE_F7, "F7", ("polar",)), "F11": (SITE_F11, "F11", ("tied",)), "F12": (SITE_F12, "F12", ("polar",)),
+                "F14": (SITE_F14, "F14", ("fixed",))}
+COORD = ("rp2xy", "xy2rp", "rp2xy_all", "xy2rp_all", "std_polar", "std_polar_all", "standard_complex")
 
 
 # --------------------------------------------------------------------------- Coq printing
@@ -147,14 +155,24 @@ class Exec:
             o_rp(n)
             self.calls.append((False, n, bool(fl), b, comp(n), vm.variables[n + "r"] is vm.variables[n + "i"]))
 
+        o_ang = vm._std_polar_angle
+        self.ang_in = None
+
+        def ang(p, *a, **kw):
+            self.ang_in = float(p.numpy()) if hasattr(p, "numpy") else float(p)
+            return o_ang(p, *a, **kw)
+
         def std_polar(n):
             k = len(self.calls)
+            self.ang_in = None
             o_std(n)
             mid = self.calls[k][4]
             fin = comp(n)
-            self.stdcalls.append((n, mid, fin if mid[0] < 0 else None))
+            # the phase handed to _std_polar_angle is the one after the r<0 branch (p + pi)
+            pin = self.ang_in if self.ang_in is not None else fin[1]
+            self.stdcalls.append((n, mid, (fin[0], pin) if mid[0] < 0 else None, fin[1], pin))
 
-        vm.xy2rp, vm.rp2xy, vm.std_polar = xy2rp, rp2xy, std_polar
+        vm.xy2rp, vm.rp2xy, vm.std_polar, vm._std_polar_angle = xy2rp, rp2xy, std_polar, ang
         self.prev = snap(vm)
 
     # ---- helpers
@@ -273,13 +291,40 @@ class Exec:
             _, n = spec
             self.need(n in C and (n + "r") in V and (n + "i") in V)
             vm.std_polar(n)
-            _, mid, fl = self.stdcalls[0]
-            op = "StdPolar %s %s %s" % (cs(n), cpair(cq(mid[0]), cq(mid[1])), cflip(fl))
+            _, mid, fl, pw, _ = self.stdcalls[0]
+            op = "StdPolar %s %s %s %s" % (cs(n), cpair(cq(mid[0]), cq(mid[1])), cflip(fl), cq(pw))
         elif k in ("std_polar_all", "standard_complex"):
             self.need(all((n + "r") in V and (n + "i") in V for n in C))
             (vm.std_polar_all if k == "std_polar_all" else vm.standard_complex)()
-            o = clist([cpair(cs(n), cpair(cpair(cq(mid[0]), cq(mid[1])), cflip(fl))) for n, mid, fl in self.stdcalls])
+            o = clist([cpair(cs(n), cpair(cpair(cpair(cq(mid[0]), cq(mid[1])), cflip(fl)), cq(pw))) for n, mid, fl, pw, _ in self.stdcalls])
             op = "%s %s" % ("StdPolarAll" if k == "std_polar_all" else "StandardComplex", o)
+        elif k == "mask_probe":
+            # enter mask_params, look / write back / nest, leave: the stored state must not change
+            _, mask, mode, inner = spec
+            # one name per tf.Variable (two different mask values for one object would be an ill-posed request)
+            seen, m2, i2 = [], {}, {}
+            for d_in, d_out in ((mask, m2), (inner, i2)):
+                for n, v in d_in.items():
+                    if n in V and not any(V[n] is o for o in seen):
+                        seen.append(V[n])
+                        d_out[n] = v
+            mask, inner = m2, i2
+            self.need(mask)
+            self.mask_report = []
+            with vm.mask_params(dict(mask)):
+                self.mask_look(mask)
+                if mode == "roundtrip":
+                    vm.set_all(dict(vm.get_all_dic()))
+                elif mode == "roundtrip_pdf":
+                    from types import SimpleNamespace
+                    from tf_pwa.amp.amp import AbsPDF
+                    me = SimpleNamespace(vm=vm)
+                    AbsPDF.set_params(me, dict(AbsPDF.get_params(me)))
+                elif mode == "nested" and inner:
+                    with vm.mask_params(dict(inner)):
+                        self.mask_look(dict(mask, **inner))
+                    self.mask_look(mask)
+            op = "SetAllDict [] false"
         elif k == "remove_var":
             _, n = spec
             self.need((n in C and (n + "r") in V and (n + "i") in V) or (n not in C and n in V))
@@ -302,6 +347,22 @@ class Exec:
         self.prev = post
         return op
 
+    def mask_look(self, mask):
+        """what the model sees (vm.read) under the active masks: a masked name reads the mask value, and
+        so does every name tied to it (sharing its tf.Variable); all other names read their stored value"""
+        vm = self.vm
+        want = {}
+        for n, v in mask.items():
+            for m, var in vm.variables.items():
+                if var is vm.variables[n]:
+                    want[m] = float(v)
+        for m, var in vm.variables.items():
+            got = float(vm.read(m).numpy())
+            exp = want.get(m, float(var.numpy()))
+            if got != exp:
+                self.mask_report.append("%s reads %r under mask %s, expected %r%s" % (
+                    m, got, mask, exp, " (tied to a masked name)" if (m in want and m not in mask) else ""))
+
     def conv_oracle(self):
         return clist([cpair(cs(c[1]), cpair(cq(c[4][0]), cq(c[4][1]))) for c in self.calls])
 
@@ -310,9 +371,10 @@ class Exec:
             if fl == target or aliased:
                 continue
             self.trig.append(("xy2rp" if target else "rp2xy", b, a))
-        for (n, mid, fl) in self.stdcalls:
+        for (n, mid, fl, pw, pin) in self.stdcalls:
             if fl is not None:
                 self.trig.append(("flip", mid, fl))
+            self.trig.append(("wrap", (pin,), (pw,)))
 
     # ---- the property's invariants, evaluated on the implementation
     def invariants(self, spec, pre, post):
@@ -373,6 +435,39 @@ class Exec:
                     v = pre["dic"].get(t)
                     if v is not None and t in dic and lo <= v <= hi and abs(dic[t] - v) > 1e-8 * (1 + abs(v)):
                         bad("roundtrip", "%s changed %r -> %r by get_all_val(True)/set_all(.,True)" % (t, v, dic[t]))
+        # masks: nothing stored changes, tied names read the same value, nested masks add up
+        if k == "mask_probe":
+            for n, v in pre["dic"].items():
+                if n in dic and dic[n] != v:
+                    bad("roundtrip", "%s changed %r -> %r by mask_params(%s) + %s" % (n, v, dic[n], spec[1], spec[2]))
+            for msg in self.mask_report[:3]:
+                bad("tied" if "tied to a masked" in msg else "mask", msg)
+        # a tie request never changes a fixed parameter (unless it ties fixed parameters of different values)
+        if k == "set_same" and post["same"]:
+            free_ids = {pre["ids"][n] for n in pre["train"] if n in pre["ids"]}
+            grp = post["same"][-1]
+            for suf in (("r", "i") if spec[2] else ("",)):
+                names = [n + suf for n in grp if (n + suf) in pre["dic"] and (n + suf) in dic]
+                fx = [n for n in names if pre["ids"][n] not in free_ids]
+                if len({pre["dic"][n] for n in fx}) == 1:
+                    for n in fx:
+                        if dic[n] != pre["dic"][n]:
+                            bad("fixed", "fixed %s changed %r -> %r by set_same(%s)" % (n, pre["dic"][n], dic[n], list(spec[1])))
+        # fixing a name takes its tf.Variable out of the free list (also when the name is tied)
+        if k == "set_fix" and not spec[3] and spec[1] in post["ids"]:
+            if post["ids"][spec[1]] in {post["ids"].get(n) for n in post["train"]}:
+                bad("fixed", "set_fix(%s) leaves its tf.Variable in the free list %s" % (spec[1], post["train"]))
+        # a coordinate operation on a complex parameter with exactly one fixed component moves that component
+        if k in COORD:
+            free_ids = {pre["ids"][n] for n in pre["train"] if n in pre["ids"]}
+            for c in pre["cplx"]:
+                r_, i_ = c + "r", c + "i"
+                if r_ in pre["ids"] and i_ in pre["ids"] and r_ in dic and i_ in dic:
+                    fr, fi = pre["ids"][r_] not in free_ids, pre["ids"][i_] not in free_ids
+                    if fr != fi:
+                        n = r_ if fr else i_
+                        if dic[n] != pre["dic"][n]:
+                            bad("fixed", "fixed component %s of %s (other component free) changed %r -> %r by %s" % (n, c, pre["dic"][n], dic[n], k))
         # coordinate changes / standard form keep the complex value
         if k in ("rp2xy", "xy2rp", "rp2xy_all", "xy2rp_all", "std_polar", "std_polar_all", "standard_complex"):
             for c in pre["cplx"]:
@@ -385,7 +480,7 @@ class Exec:
                 if dic[c + "r"] < 0:
                     bad("std_r_nonneg", "%s has r=%r after %s" % (c, dic[c + "r"], k))
                 if not (-math.pi <= dic[c + "i"] < math.pi):
-                    self.obs_counts["std_polar_phase_outside_[-pi,pi)"] = self.obs_counts.get("std_polar_phase_outside_[-pi,pi)", 0) + 1
+                    bad("std_range", "%s has phase %r outside [-pi, pi) after %s" % (c, dic[c + "i"], k))
 
 
 def run_specs(specs, skip_invalid=False):
@@ -431,6 +526,7 @@ def shrink(specs, inv, budget=150):
 
 NICE = [k / 16.0 for k in range(-40, 41) if k != 0]
 POS = [k / 16.0 for k in range(1, 41)]
+WIDE = [k / 8.0 for k in range(-80, 81) if abs(k) > 25]  # phases beyond +-pi
 
 
 class Gen:
@@ -462,9 +558,15 @@ class Gen:
         return [c for c in self.vm.complex_vars if c not in gr and c + "r" not in gr and c + "i" not in gr
                 and c + "r" in self.vm.variables and c + "i" in self.vm.variables]
 
-    def unfix_ok(self, n):
+    def partially_fixed(self, c):
+        """exactly one of the two component objects of c is in the free list (known finding F14)"""
         vm = self.vm
-        return all(m == n or vm.variables[m] is not vm.variables[n] for m in vm.trainable_vars)
+        if c + "r" not in vm.variables or c + "i" not in vm.variables:
+            return False
+        free = [vm.variables[m] for m in vm.trainable_vars if m in vm.variables]
+        fr = not any(vm.variables[c + "r"] is v for v in free)
+        fi = not any(vm.variables[c + "i"] is v for v in free)
+        return fr != fi
 
     # -- config phases
     def create(self, nreal, ncplx):
@@ -502,7 +604,7 @@ class Gen:
                 self.do(("set_fix", n, None, False))
             elif m < 0.75:
                 self.do(("set_fix", n, r.choice(NICE), False))
-            elif self.unfix_ok(n):
+            else:
                 self.do(("set_fix", n, None, True))
 
     def tie(self, k):
@@ -521,11 +623,7 @@ class Gen:
                 cs_ = self.untied_cplx()
                 if len(cs_) < 2:
                     continue
-                a = r.choice(cs_)
-                same_flag = [c for c in cs_ if vm.complex_vars[c] == vm.complex_vars[a]]
-                if len(same_flag) < 2:
-                    continue
-                self.do(("set_same", r.sample(same_flag, 2 if len(same_flag) < 3 else r.choice([2, 3])), True))
+                self.do(("set_same", r.sample(cs_, 2 if len(cs_) < 3 else r.choice([2, 3])), True))
 
     def bound(self, k):
         r = self.rnd
@@ -547,9 +645,20 @@ class Gen:
         r, vm = self.rnd, self.vm
         names = list(vm.variables)
         cps = [c for c in vm.complex_vars if c + "r" in vm.variables and c + "i" in vm.variables]
-        kinds = ["set", "set", "set_all_dict", "set_all_list", "refresh", "roundtrip_dict", "roundtrip_list", "roundtrip_pdf", "roundtrip_fit"]
+        kinds = ["set", "set", "set_all_dict", "set_all_list", "refresh", "roundtrip_dict", "roundtrip_list", "roundtrip_pdf", "roundtrip_fit",
+                 "mask_probe"]
+        if cps:
+            kinds += ["set_phase"]
+        if cps and (allow_coord or getattr(self, "allow_sc", False)):
+            kinds += ["standard_complex"]
         if allow_coord and cps:
-            kinds += ["rp2xy", "xy2rp", "rp2xy_all", "xy2rp_all", "std_polar", "std_polar_all", "standard_complex", "std_polar", "rp2xy_all", "xy2rp_all"]
+            # EXCLUSION (known finding F14): no rp2xy / xy2rp / std_polar on a parameter with exactly one fixed component
+            ok = [c for c in cps if not self.partially_fixed(c)]
+            if ok:
+                kinds += ["rp2xy", "xy2rp", "std_polar", "std_polar"]
+            if len(ok) == len(cps):
+                kinds += ["rp2xy_all", "xy2rp_all", "std_polar_all", "rp2xy_all", "xy2rp_all"]
+            cps = ok
         k = r.choice(kinds)
         if not names:
             return
@@ -557,6 +666,17 @@ class Gen:
             n = r.choice(names)
             vif = r.random() < 0.3
             self.do(("set", n, r.choice(NICE), vif))
+        elif k == "set_phase":
+            c = r.choice([c for c in vm.complex_vars if c + "i" in vm.variables])
+            self.do(("set", c + "i", r.choice(WIDE), False))
+            if r.random() < 0.5:
+                self.do(("set", c + "r", -r.choice(POS), False))
+        elif k == "mask_probe":
+            ns = r.sample(names, r.randrange(1, min(3, len(names)) + 1))
+            rest = [n for n in names if n not in ns]
+            inner = {n: r.choice(NICE) for n in r.sample(rest, min(len(rest), r.randrange(1, 3)))} if rest else {}
+            self.do(("mask_probe", {n: r.choice([0.0, 0.0, r.choice(NICE)]) for n in ns},
+                     r.choice(["read", "roundtrip", "roundtrip_pdf", "nested", "nested"]), inner))
         elif k == "set_all_dict":
             ns = r.sample(names, r.randrange(1, min(5, len(names)) + 1))
             self.do(("set_all_dict", {n: r.choice(NICE) for n in ns}, r.random() < 0.2))
@@ -704,7 +824,73 @@ def gen_f12(rnd, length):
     return ex
 
 
-GENS = {"clean": gen_clean, "F7": gen_f7, "F11": gen_f11, "F12": gen_f12}
+def gen_sc(rnd, length):
+    """component-name ties (shared radius via set_share_r, shared phase / both components via set_same on
+    'ar','br' / 'ai','bi') with a NEGATIVE radius at the group head, then standard_complex() between value
+    operations: standard_complex must leave every parameter with a tied component alone, so that the
+    complex value of every member and the ties survive.  No other coordinate operation (those are F7)."""
+    ex = Exec()
+    g = Gen(rnd, ex)
+    names = ["c0", "c1"] + (["c2"] if rnd.random() < 0.4 else [])
+    for n in names:
+        g.do(("add_complex", n, True, True, [1.0, 0.0]))
+    g.nc = len(names)
+    g.allow_sc = True
+    g.create(rnd.randrange(0, 2), rnd.randrange(0, 2))
+    m = rnd.random()
+    if m < 0.4:
+        g.do(("share_r", list(names)))
+    elif m < 0.6:
+        g.do(("set_same", [n + "r" for n in names], False))
+    elif m < 0.8:
+        g.do(("set_same", [n + "i" for n in names], False))
+    else:
+        g.do(("set_same", [n + "r" for n in names], False))
+        g.do(("set_same", [n + "i" for n in names], False))
+    def negative_head():
+        d = {"c0r": -rnd.choice(POS)}
+        for n in names:
+            d[n + "i"] = rnd.choice(NICE + WIDE)
+            if rnd.random() < 0.5:
+                d[n + "r"] = rnd.choice([-1, 1]) * rnd.choice(POS)
+        g.do(("set_all_dict", d, False))
+        g.do(("set", "c0r", -rnd.choice(POS), False))
+    negative_head()
+    g.do(("standard_complex",))
+    for _ in range(max(3, length - len(ex.steps))):
+        m = rnd.random()
+        if m < 0.4:
+            g.do(("standard_complex",))
+        elif m < 0.6:
+            negative_head()
+        else:
+            g.value_op(allow_coord=False)
+    g.do(("standard_complex",))
+    return ex
+
+
+def gen_f14(rnd, length):
+    """a complex parameter with exactly one fixed component, then coordinate operations"""
+    ex = Exec()
+    g = Gen(rnd, ex)
+    pol = rnd.choice([True, True, False])
+    g.do(("add_complex", "c0", pol, True, [1.0, 0.0]))
+    g.nc = 1
+    g.create(rnd.randrange(0, 2), rnd.randrange(0, 2))
+    g.do(("set_fix", "c0" + rnd.choice(["r", "i"]), rnd.choice(POS), False))
+    for _ in range(max(3, length - len(ex.steps))):
+        if rnd.random() < 0.6:
+            free = [n for n in ("c0r", "c0i") if n in ex.vm.trainable_vars]
+            if free:
+                g.do(("set", free[0], rnd.choice(NICE), False))
+            k = rnd.choice(["rp2xy_all", "xy2rp_all", "std_polar_all", "rp2xy", "xy2rp", "std_polar"])
+            g.do((k, None) if k.endswith("_all") and k != "std_polar_all" else ((k,) if k == "std_polar_all" else (k, "c0")))
+        else:
+            g.value_op(allow_coord=False)
+    return ex
+
+
+GENS = {"clean": gen_clean, "SC": gen_sc, "F7": gen_f7, "F11": gen_f11, "F12": gen_f12, "F14": gen_f14}
 
 # fixed minimal reproducers of the open known findings (KNOWN_FINDINGS.json).  The KNOWN-FINDING
 # line is produced by these histories only, i.e. it disappears when the reproducer stops failing.
@@ -728,6 +914,10 @@ FIXED = {
         [("add_complex", "h", True, True, [1.0, 0.0]), ("add_complex", "j1", True, True, [1.0, 0.0]),
          ("add_complex", "j2", True, True, [1.0, 0.0]), ("set_same", ["h", "j1"], True), ("set_same", ["h", "j2"], True),
          ("set_all_dict", {"hr": 2.0, "hi": 0.5}, False), ("rp2xy_all", None)],
+    ],
+    "F14": [
+        [("add_complex", "a", True, True, [1.0, 0.0]), ("set_fix", "ai", 0.5, False), ("set", "ar", 2.0, False), ("rp2xy_all", None)],
+        [("add_complex", "a", True, True, [1.0, 0.0]), ("set_fix", "ai", 0.5, False), ("set", "ar", -2.0, False), ("std_polar_all",)],
     ],
 }
 
@@ -808,6 +998,12 @@ def trig_cases(trig):
             st = "(Rabs (%s * cos %s - %s) <= %s /\\ Rabs (%s * sin %s - %s) <= %s)%%R" % (
                 Rq(r), Rq(p), Rq(x), tol, Rq(r), Rq(p), Rq(y), tol)
             tac = "split; interval with (i_prec 90)"
+        elif kind == "wrap":
+            (p,), (pw,) = b, a
+            tol = Rq(Fraction(1e-11 * (1 + abs(p))).limit_denominator(10 ** 30))
+            st = "(Rabs (cos %s - cos %s) <= %s /\\ Rabs (sin %s - sin %s) <= %s /\\ - PI <= %s /\\ %s < PI)%%R" % (
+                Rq(pw), Rq(p), tol, Rq(pw), Rq(p), tol, Rq(pw), Rq(pw))
+            tac = "repeat split; interval with (i_prec 90)"
         else:
             (r, p), (r2, p2) = b, a
             tol = Rq(Fraction(1e-12 * (1 + abs(p))).limit_denominator(10 ** 30))
@@ -839,7 +1035,10 @@ def search(ctx, fails):
 
 def hist_stmt(ex, stream):
     body = clist(["(%s,%s)" % (op, cobs(o)) for (_, op, o) in ex.steps])
-    return "(%s %s = true)" % ("check_clean" if stream == "clean" else "check_known", body), body
+    # clean: the model classifies the history as safe; F14: no tie pattern involved (only the correspondence);
+    # SC / F7 / F11 / F12: the model classifies the history as containing an excluded tie pattern
+    fn = {"clean": "check_clean", "F14": "check_hist"}.get(stream, "check_known")
+    return "(%s %s = true)" % (fn, body), body
 
 
 def run(ctx):
@@ -848,16 +1047,22 @@ def run(ctx):
     ctx.rule = ("seeded histories of VarsManager operations executed on the real class. Clean stream = create, fix/free, tie, bound (the order "
                 "config_loader.add_constraints applies them), value operations (set/set_all dict+list/refresh/rp2xy/xy2rp/_all/std_polar/_all/"
                 "standard_complex/get-set round trips incl. AbsPDF.get_params/set_params), then arbitrary interleavings incl. add/fix/free/tie/bound/"
-                "remove_bound/rename_var/remove_var; length 5-40 quick, up to 200 thorough. EXCLUSION RULE of the clean stream (= the model's "
+                "remove_bound/rename_var/remove_var (fix/free also on tied names, ties also between polar and Cartesian parameters and with fixed "
+                "members, phases beyond +-pi, mask_params probes: read / get-set round trip / nested mask inside a mask); length 5-40 quick, up to 200 "
+                "thorough. EXCLUSION RULE of the clean stream (= the model's "
                 "tie_safe, evaluated inside Coq for every clean history): tie requests on real names must name distinct existing non-component names "
                 "touching at most one existing group (no merging: F11); tie requests with cplx=True must name distinct untied complex parameters "
-                "with equal polar flag (no overlapping/chained complex groups: F11/F12); no set_share_r and no set_same on component names of complex "
-                "parameters (F7); a name is freed only if no other free name shares its tf.Variable; rename/remove only untied names; upper-only bounds "
-                "b<=-1 are not generated (Bound cannot be constructed). Known-finding streams F7/F11/F12 contain exactly the excluded tie patterns, each "
+                "(no overlapping/chained complex groups: F11/F12); no set_share_r and no set_same on component names of complex "
+                "parameters (F7); no rp2xy/xy2rp/std_polar(_all) while the addressed complex parameter has exactly one fixed component (F14; "
+                "standard_complex, which skips such parameters, stays in); rename/remove only untied names; upper-only bounds "
+                "b<=-1 are not generated (Bound cannot be constructed). Stream SC (must pass): component-name ties (set_share_r, set_same on r / i / both "
+                "component names) x negative radius at the group head x standard_complex() between value operations. Known-finding streams F7/F11/F12/F14 "
+                "contain exactly the excluded patterns, each "
                 "headed by fixed minimal reproducers. One Coq obligation per history (all steps compared) + one per sampled trig/bound oracle value; "
                 "distinct = distinct operation-kind sequences and distinct bound cases")
     common.theorem_stage(ctx)
-    plan = [("clean", 200 if quick else 1000), ("F7", 12 if quick else 60), ("F11", 10 if quick else 40), ("F12", 10 if quick else 40)]
+    plan = [("clean", 200 if quick else 1000), ("SC", 24 if quick else 120), ("F7", 12 if quick else 60), ("F11", 10 if quick else 40),
+            ("F12", 10 if quick else 40), ("F14", 8 if quick else 40)]
     cases, meta, trig, bcalls = [], {}, [], []
     obs_counts = {}
     still_fails = {}
@@ -984,8 +1189,9 @@ def run(ctx):
     for cid, st, tac, m in tc:
         if res[cid] != "OK":
             ctx.fail("oracle_contract", cid, "values assigned by %s do not satisfy the conversion contract (%s)" % (m["kind"], res[cid]), inp=m,
-                     site="VarsManager." + ("std_polar" if m["kind"] == "flip" else m["kind"]), fingerprint="oracle:" + m["kind"],
-                     failing_input=dict(m, note="complex value not preserved by this single conversion"))
+                     site="VarsManager." + ("std_polar" if m["kind"] in ("flip", "wrap") else m["kind"]), fingerprint="oracle:" + m["kind"],
+                     failing_input=dict(m, note=("phase handed to _std_polar_angle (before) and phase stored afterwards (after): not the same angle "
+                                                 "in [-pi, pi)") if m["kind"] == "wrap" else "complex value not preserved by this single conversion"))
     for cid, st, tac, m in bc:
         if res[cid] != "OK":
             ctx.fail("bound", cid, "Bound.%s differs from the documented transform (%s)" % (m["method"], res[cid]), inp=m,
@@ -995,7 +1201,10 @@ def run(ctx):
         "state machine; their contracts are hypotheses of the value-preservation theorems and are checked per sampled call by Coq-Interval (atol 1e-11)",
         "ties: proved for requests that neither merge nor overlap existing groups and do not tie component names (the model's tie_safe); outside that class "
         "the refutation theorems apply (known findings F7, F11, F12)",
-        "std_polar: only value preservation and r>=0 are asserted; the phase is not brought into [-pi,pi) by the code (observation F9)"])
+        "coordinate operations on a complex parameter with exactly one fixed component (known finding F14) are outside the clean stream: value "
+        "preservation and 'fixed component untouched' cannot both hold there",
+        "masks (vm.mask_params) are not part of the Coq state machine: their invariants (stored state untouched, tied names read the same "
+        "value, nested masks add up) are evaluated directly on the implementation inside the histories"])
 
 
 def replay(rep):
